@@ -1,7 +1,8 @@
 import Driver.Codec
+import Driver.FromJson
 import TartModel.Generated.Scalars
 /- Line-protocol driver: one JSON request per line on stdin, one JSON answer per line on stdout. -/
-open Lean Tart Tart.Codec
+open Lean Tart Tart.Codec Tart.FromJson
 
 def scalarFn (o : Oracle) (scalar dir : String) : Option (PyVal → PyR) :=
   match scalar, dir with
@@ -37,6 +38,18 @@ def handle (j : Json) : Except String Json := do
       match f v with
       | .ok r => pure (Json.mkObj [("ok", encode r)])
       | .error e => pure (Json.mkObj [("err", Json.str (excName e))])
+  | "execute" =>
+    let S ← decodeSchema (← j.getObjVal? "schema")
+    let doc ← decodeDocument (← j.getObjVal? "doc")
+    let env ← decodeEnv ((j.getObjVal? "env").toOption.getD Json.null)
+    let o ← decodeOracle ((j.getObjVal? "stf").toOption.getD Json.null)
+    let opName := match optField j "op_name" with | some (Json.str s) => some s | _ => none
+    let vars ← match optField j "vars" with
+      | some v => decodeKVs v
+      | none => pure []
+    let root ← match optField j "root" with | some v => decode v | none => pure PyVal.none
+    let fuel := match optField j "fuel" with | some (Json.num n) => n.mantissa.toNat | _ => 100000
+    pure (encodeResponse (executeRequest fuel S o env doc opName vars root))
   | "echo" => pure (Json.mkObj [("ok", encode (← decode (← j.getObjVal? "value")))])
   | _ => throw s!"unknown op {op}"
 
